@@ -1,0 +1,5 @@
+//go:build !verif
+
+package v0
+
+func verifIdleRequesters(*BlockPool) {}
